@@ -198,7 +198,9 @@ def run(ctx):
                     "other.kawasaki.jp", "a.other.kawasaki.jp", "lemonde.fr", "www.lemonde.fr", "co.uk", "bbc.co.uk", "www.bbc.co.uk", "fr", "zzzunknown",
                     "example.zzzunknown", "localhost.example.com", "1.2.3.4.example.com", "a.b.example.com", "s3.amazonaws.com", "x.s3.amazonaws.com",
                     "compute.amazonaws.com", "a.compute.amazonaws.com", "b.a.compute.amazonaws.com", "公司.cn", "x.公司.cn", "aéroport.ci", "x.aéroport.ci",
-                    "abc.de", "www.abc.de", "cafe.be", "decade.cc", "dead.beef.cafe.be", "be", "f00d.cc"]  # all-hex labels are ordinary hosts
+                    "abc.de", "www.abc.de", "cafe.be", "decade.cc", "dead.beef.cafe.be", "be", "f00d.cc"]
+        from vf.gen.hosts import TRICKY_HOSTS
+        directed += [h for h in TRICKY_HOSTS if h not in directed]  # all-hex labels are ordinary hosts
         for wb in wild_bases:
             for r in rules:
                 if r.endswith("." + wb) and not r.startswith("!") and len(r.split(".")) > len(wb.split(".")) + 1:
